@@ -262,7 +262,13 @@ def execute(case):
                     v('uncontrollable-after-pause-hook-fault', f"a later pause() failed: {probe['raised']}")
                 elif not probe['paused'] and not probe['terminated']:
                     v('uncontrollable-after-pause-hook-fault', f"a later pause() never took effect (state {probe['state']})")
-            if not reported:
+            # "reported to whoever requested the pause": there is nobody left to report to when that very request was
+            # superseded, from inside the pause procedure it triggered, by a kill (its future ended cancelled); the rest
+            # of the clause (live and controllable or properly terminated, nothing escaped, stepping returns) still holds
+            superseded = any(
+                rec['what'] == 'pause' and rec.get('_fut') is not None and rec['_fut'].cancelled() for rec in w.futs
+            ) and any(rec['what'] == 'kill' and rec['who'].startswith(('listener:', 'hook:')) for rec in w.futs)
+            if not reported and not superseded:
                 v('pause-hook-fault-not-reported', 'no pause()/play() call raised the fault or returned a future carrying it')
             if views['state'] == 'excepted' and views['exception'][1] is exc:
                 v('pause-hook-fault-excepted', 'the process ended EXCEPTED with the fault of a pause/play hook')
